@@ -631,6 +631,9 @@ func (e *c17Exec) runOp(in *inputs, oc *opCtx, ci, oi int, op *C17Op) string {
 		st.fault("callback-odd")
 	case "method-identity": // mt() [& '|' & mu()]: each name runs the function registered under it in THIS Compile
 		want := op.Arg
+		if want == "\x00" {
+			break
+		}
 		if gerr != nil {
 			e.violate("custom-function", "callback-identity", fmt.Sprintf("%s: failed: %v", where, gerr))
 			break
